@@ -183,6 +183,15 @@ func (f *Func) redefineInputs(opts ...Arg) (reflect.Type, error) {
 
 		switch v := v.(type) {
 		case *valueVertex:
+			// Two required values with the same name but different types
+			// can't be represented in one input struct.
+			for _, f := range sf {
+				if f.Name == strings.ToUpper(v.Name) {
+					return nil, fmt.Errorf(
+						"redefined function would require two inputs named %q", v.Name)
+				}
+			}
+
 			sf = append(sf, reflect.StructField{
 				Name: strings.ToUpper(v.Name),
 				Type: v.Type,
